@@ -380,9 +380,9 @@ pub fn guard_u8_u16() {
         let mut i = 0; while i < twin.len() { assert!(g[i] == twin[i], "C08: range encoder view differs from what finishing the encoder would return"); i += 1; }
     }
     let (b, st1, sit1) = enc.into_raw_parts();
-    assert!(st1 == st && sit1 == sit, "C08/C02: dropping the view changed the range encoder's state or situation");
-    assert!(b.len() == npre, "C08/C02: dropping the view did not remove exactly the seal words");
-    let mut i = 0; while i < npre { assert!(b[i] == pre[i], "C08/C02: dropping the view changed the words written so far"); i += 1; }
+    assert!(st1 == st && sit1 == sit, "C08/C02/C06: dropping the view changed the range encoder's state or situation");
+    assert!(b.len() == npre, "C08/C02/C06: dropping the view did not remove exactly the seal words");
+    let mut i = 0; while i < npre { assert!(b[i] == pre[i], "C08/C02/C06: dropping the view changed the words written so far"); i += 1; }
     cover!(matches!(sit, EncoderSituation::Inverted(..)), "inspected while words are held back");
 }
 
